@@ -173,17 +173,18 @@ StrictKV(bs, p, kt, vt, n, acc, st, al) ==
 (* Random-access decode (reader.ReadValue) followed by forcing every lazy   *)
 (* container.  A container is: header (strict), skip pass with discardSeek, *)
 (* the returned offset is the skip pass's; ForEach then re-reads strictly.  *)
-RECURSIVE DecLazy(_, _, _, _, _), LazyFields(_, _, _, _, _), LazyN(_, _, _, _, _, _, _, _), LazyKV(_, _, _, _, _, _, _, _)
+RECURSIVE DecLazy(_, _, _, _, _), DecLazyF(_, _, _, _, _, _), LazyFields(_, _, _, _, _, _), LazyN(_, _, _, _, _, _, _, _), LazyKV(_, _, _, _, _, _, _, _)
 
-DecLazy(bs, p, t, st, al) ==
+DecLazyF(bs, p, t, st, al, force) ==
   IF IsScalarT(t) THEN LET r == ReadScalar(bs, p, t, st) IN [r EXCEPT !.al = al + r.al]
-  ELSE CASE t = TStruct -> LazyFields(bs, p, <<>>, st, al)
+  ELSE CASE t = TStruct -> LazyFields(bs, p, <<>>, st, al, force)
        [] t = TMap ->
          IF ~Have(bs, p, 6) THEN Err(p, "eof", st + 3, al)
          ELSE LET n == I32At(bs, p + 2) IN
               IF n < 0 THEN Err(p + 6, "decode", st + 3, al)
               ELSE LET s == SkipKV(bs, p + 6, bs[p], bs[p+1], n, TRUE, st + 3) IN
                    IF ~s.ok THEN [s EXCEPT !.al = al]
+                   ELSE IF ~force THEN Ok(s.p, Nil, s.st, al)
                    ELSE LET f == LazyKV(bs, p + 6, bs[p], bs[p+1], n, <<>>, s.st, al) IN
                         IF ~f.ok THEN f ELSE [f EXCEPT !.p = s.p]
        [] t \in {TSet, TList} ->
@@ -192,17 +193,25 @@ DecLazy(bs, p, t, st, al) ==
               IF n < 0 THEN Err(p + 5, "decode", st + 2, al)
               ELSE LET s == SkipN(bs, p + 5, bs[p], n, TRUE, st + 2) IN
                    IF ~s.ok THEN [s EXCEPT !.al = al]
+                   ELSE IF ~force THEN Ok(s.p, Nil, s.st, al)
                    ELSE LET f == LazyN(bs, p + 5, t, bs[p], n, <<>>, s.st, al) IN
                         IF ~f.ok THEN f ELSE [f EXCEPT !.p = s.p]
        [] OTHER -> Err(p, "decode", st, al)
 
-LazyFields(bs, p, acc, st, al) ==
+\* reader.ReadValue first runs to completion without forcing anything (scalars,
+\* binaries and struct fields eagerly, containers by a skip pass); only then
+\* does the client force the lazy containers (depth-first, in field order).
+DecLazy(bs, p, t, st, al) ==
+  LET a == DecLazyF(bs, p, t, st, al, FALSE) IN
+  IF ~a.ok THEN a ELSE DecLazyF(bs, p, t, a.st, al, TRUE)
+
+LazyFields(bs, p, acc, st, al, force) ==
   IF ~Have(bs, p, 1) THEN Err(p, "eof", st + 1, al)
   ELSE IF bs[p] = 0 THEN Ok(p + 1, [t |-> TStruct, f |-> acc], st + 1, al)
   ELSE IF ~Have(bs, p + 1, 2) THEN Err(p + 1, "eof", st + 2, al)
-  ELSE LET r == DecLazy(bs, p + 3, bs[p], st + 2, al) IN
+  ELSE LET r == DecLazyF(bs, p + 3, bs[p], st + 2, al, force) IN
        IF ~r.ok THEN r
-       ELSE LazyFields(bs, r.p, Append(acc, [id |-> I16At(bs, p + 1), v |-> r.v]), r.st, r.al)
+       ELSE LazyFields(bs, r.p, Append(acc, [id |-> I16At(bs, p + 1), v |-> r.v]), r.st, r.al, force)
 
 LazyN(bs, p, ct, et, n, acc, st, al) ==
   IF n = 0 THEN Ok(p, [t |-> ct, et |-> et, e |-> acc], st, al)
@@ -218,6 +227,7 @@ LazyKV(bs, p, kt, vt, n, acc, st, al) ==
             ELSE LazyKV(bs, v.p, kt, vt, n - 1, Append(acc, [k |-> k.v, v |-> v.v]), v.st, v.al)
 
 ---------------------------------------------------------------------------
+
 (* Properties of one (input, type) pair.                                    *)
 Prefix(bs, p) == SubSeq(bs, 1, p - 1)
 
